@@ -240,6 +240,11 @@ loop('Batch.add_routing_history', 1, 'for p in self.parts', _each_loop('add_rout
      modifies=['$trace'], index='k')
 
 contract('Batch.remove_from_routing_history', props=['C17', 'C08'], args={'index': 'int'},
+         # the contained parts carry (at least) the batch's history -- add_routing_history reaches all of them --, so the index
+         # is valid for each of them too (found by the CPython differential: without it a part's own pop raises IndexError)
+         requires={'index_valid_for_the_contained_parts_too':
+                       'all(p._routing_history is not None and alive(p._routing_history) and '
+                       '    index >= -len(p._routing_history) and index < len(p._routing_history) for p in self.parts)'},
          raises={'IndexError': ('index < -len(self._routing_history) or index >= len(self._routing_history)',
                                 {'bad_index_changes_nothing': '@frame:'})},
          ensures={'removed_from_the_own_history':
